@@ -504,11 +504,22 @@ reg(Prop("C14", "Time budget granted to a search never exceeds the clock", "Prop
          [StreamCfg("c14", 20000, 400000, judge="judge_c14",
                     rule="dense grid remaining in -2..257 x 15 increments x colour x 8 move times plus random "
                          "(small, 10^12-range, wild 64-bit) clock states; non-trivial = mover has a clock or a move time; "
-                         "distinct by input tuple")],
-         trusted=["hook uci/export_verif.go (VerifSoftLimit/VerifHardLimit/VerifTimedMode call the unexported methods)",
-                  "modelled, not verified: arming of time.Timer and the wall clock (runtime); see C13 for the protocol side"],
+                         "distinct by input tuple"),
+          StreamCfg("c14arm", 6000, 150000, judge="judge_c14arm",
+                    rule="sessions setoption Ponder / position / go ... against the real uci.Driver inside a testing/synctest bubble "
+                         "(virtual time) with a search stand-in that has made 0..4 moves in place on the driver's board while it waits: "
+                         "mover's clock around the margin / 1 s..2 h / up to 9*10^12 ms / absent / negative, increment 0 / small / dominating, "
+                         "opponent's clock 10..10^4 times larger or smaller, move time in a fifth, 6 root positions (3 per colour), "
+                         "go ponder with and without the Ponder option, ponderhit 0 ms..1000 s after the start, 0..50 lines of isready or "
+                         "debug on/off at intervals from 1 ms to 4 hard limits (persistent traffic until the stop in a quarter), the GUI's "
+                         "stop below / at / just above the expected deadline, up to and beyond the remaining time; every session is run twice "
+                         "with only the opponent's remaining time and increment changed; non-trivial = a deadline gets armed; distinct by input tuple")],
+         trusted=["hook uci/export_verif.go (VerifSoftLimit/VerifHardLimit/VerifTimedMode call the unexported methods; VerifParseUCIMove for the moves of the search stand-in)",
+                  "arming of the deadline (which clock and colour the time.Timer is computed from, when it starts, that traffic during the search does not restart it) is OBSERVED on the real uci.Driver under virtual time: Go's testing/synctest bubble (fake clock, timers fire exactly) and the stand-in for search.Search are trusted",
+                  "runtime, not verified: the real wall clock and the Go scheduler (how late after the deadline the timer goroutine runs and the real search notices the closed stop channel); see C13 for the protocol side"],
          assumptions=["remaining time 1..9*10^12 ms, increment 0..2^60 ms (superset of the stated 10^12 / 10^9 domain)",
-                      "time.Duration(h)*time.Millisecond is int64 multiplication by 10^6"],
+                      "time.Duration(h)*time.Millisecond is int64 multiplication by 10^6",
+                      "c14arm: instants up to 8*10^12 virtual ms after the start of the search (a bubble's clock starts at 2000-01-01 in int64 ns); the search leaves the driver's board in the root position whenever it is not running (C03)"],
          design_ref="5/C14"))
 
 _BOARD_TRUSTED = [
